@@ -191,6 +191,9 @@ func cmdCheck(argv []string) int {
 		sort.Ints(ords)
 		for _, n := range ords {
 			cc := e.cs.Funcs[k].Closures[n]
+			if cp := cc.Flags["props"]; cp != "" && !strings.Contains(" "+cp+" ", " "+prop+" ") {
+				continue // the closure's contract belongs to other properties than the enclosing function's
+			}
 			ck, err := e.prepareClosure(k, n)
 			if err != nil {
 				cu := &Unit{eng: e, name: shortFuncName(k) + fmt.Sprintf("$%d", n), contract: cc}
@@ -477,7 +480,10 @@ func cmdCheck(argv []string) int {
 			}
 		}
 		switch {
-		case o.Result == "sat" || baseline[name] || replayed || (a.kind == "frame" && fnInBaseline(baseline, name)):
+		case o.Result == "sat" || baseline[name] || baseline[splitParent(name)] || replayed || (a.kind == "frame" && fnInBaseline(baseline, name)) || (o.Goal == "false" && fnInBaseline(baseline, name)):
+			// (a goal that is literally false - a guarded field touched without its lock, a callee that must not be
+			// entered with a lock held - is decided by its form: it fails on every execution that reaches it, and it
+			// could not have existed on the unchanged tree of a function that was verified there)
 			// a frame obligation exists only for a heap the function changes: where the function was verified on the
 			// unchanged tree and the heap was not among those it changed, the obligation "this heap is left alone" held
 			// there trivially (never generated) - its failure now is the failure of an obligation that used to hold
@@ -644,6 +650,22 @@ func replayable(units []*Unit) []string {
 		}
 	}
 	return out
+}
+
+// splitParent: "f#post:3.2" -> "f#post:3". A clause A ==> (B && C) is split into one obligation per conjunct; when
+// every conjunct simplifies to true on the unchanged tree the clause is recorded unsplit, so the parent's name in the
+// baseline vouches for its parts.
+func splitParent(name string) string {
+	i := strings.LastIndex(name, ".")
+	if i < 0 || i < strings.LastIndex(name, ":") {
+		return name
+	}
+	for _, c := range name[i+1:] {
+		if c < '0' || c > '9' {
+			return name
+		}
+	}
+	return name[:i]
 }
 
 // fnInBaseline: some obligation of the function that name belongs to is in the baseline.
